@@ -766,6 +766,10 @@ func (r *runner) apply(w *world, st Step) (M, bool) {
 		if wv, _ := rep["wf_violation"].([]any); len(wv) > 0 {
 			return M{"what": "a coroutine of the MODEL yielded a transaction that is not well-formed (guarantee side broken)", "diff": fmt.Sprint(wv), "step": st}, false
 		}
+		if lv, _ := rep["lin_violation"].([]any); len(lv) > 0 && monitors["C02"] {
+			return M{"what": "linearizability: no database of the request's window and no tick of it makes the sequential server give this answer", "property": "C02",
+				"diff": fmt.Sprint(lv, " events: ", mev), "property_violation": true, "step": st}, false
+		}
 		for _, e := range mev {
 			if m, ok := e.(map[string]any); ok && m["e"] == "panic" {
 				r.counts["predicted_panic"]++
